@@ -204,4 +204,48 @@ theorem scan_eq : ∀ (n : Nat) (buf : Bytes) (chunks : List Bytes),
           have := scan_eq n (buf ++ c) cs (by simp only [List.length_append]; omega)
           simpa [List.append_assoc] using this
 
+
+/-! ### progress: the fuel `len + 1` is never exhausted -/
+
+/-- At EOF every delivered token advances by at least one byte. -/
+theorem split_eof_adv_pos {d tok : Bytes} {adv : Nat} (h : split jsonPlus d true = .token adv tok) : 0 < adv := by
+  unfold split at h
+  by_cases hd : d.isEmpty = true
+  · simp [hd] at h
+  · have hl : 0 < d.length := by
+      cases d with
+      | nil => simp at hd
+      | cons _ _ => simp
+    simp only [hd, Bool.and_false, Bool.false_eq_true, if_false, firstMatch_eq_scanFirst, if_true] at h
+    cases hs : scanFirst d with
+    | none =>
+      simp only [hs, Split.token.injEq] at h
+      omega
+    | some r =>
+      obtain ⟨pos, i⟩ := r
+      obtain ⟨_, hlen1, hlen⟩ := scanFirst_bound hs
+      simp only [startLen] at hlen1 hlen
+      simp only [hs] at h
+      split at h
+      · simp only [Split.token.injEq] at h; omega
+      · split at h
+        · cases h
+        · simp only [Split.token.injEq, List.length_drop] at h; omega
+
+theorem scanEOF_not_stuck : ∀ (n : Nat) (d : Bytes), d.length < n → (scanEOF jsonPlus n d).2 ≠ .stuck
+  | 0, _, h => by omega
+  | n + 1, d, h => by
+    rw [scanEOF]
+    cases hsp : split jsonPlus d true with
+    | more => simp
+    | fail => simp
+    | token adv tok =>
+      have hpos := split_eof_adv_pos hsp
+      have ha : adv ≠ 0 := by omega
+      simp only [ha, if_false]
+      have hd : d ≠ [] := by
+        intro hd; subst hd; rw [split_nil_eof] at hsp; cases hsp
+      have hl : 0 < d.length := List.length_pos_iff.mpr hd
+      exact scanEOF_not_stuck n _ (by simp only [List.length_drop]; omega)
+
 end Oryx.Json
